@@ -47,6 +47,7 @@ CK_STATE Session::getState() { return vpi_getState(); }
 CK_SESSION_HANDLE Session::getHandle() { return SES(HSESSION); }
 bool Session::getReAuthentication() { return SES(REAUTH) != 0; }
 void Session::setReAuthentication(bool v) { SFX(SETREAUTH_N)++; SFX(SETREAUTH_LAST) = v ? 1 : 0; }
+HashAlgo::Type Session::getHashAlgo() { return (HashAlgo::Type)SES(HASHALGO); }
 bool Session::getAllowMultiPartOp() { return SES(ALLOW_MULTI) != 0; }
 bool Session::getAllowSinglePartOp() { return SES(ALLOW_SINGLE) != 0; }
 CK_SLOT_ID Slot::getSlotID() { return SES(SLOTID); }
@@ -77,6 +78,10 @@ bool SoftHSM::isMechanismPermitted(OSObject* key, CK_MECHANISM_PTR pMechanism)
 
 static long vp_hm_store[4];
 HandleManager* vp_hm() { return (HandleManager*)(void*)&vp_hm_store[0]; }
+
+#ifndef VP_REAL_OAEPCHECK
+CK_RV SoftHSM::MechParamCheckRSAPKCSOAEP(CK_MECHANISM_PTR) { return SES(OAEP_RV); }
+#endif
 
 // the tail of a cut function (engine/slice.py cut): an effect, then the contract stub
 CK_RV vp_tail() { SFX(TAIL_N)++; return vpi_tail(); }
